@@ -104,6 +104,25 @@ def recovery_cases(seed, thorough=False):
     best = pgm.model_iso(iso, model=models)
     ok = close(best.model.rmse, min(m.model.rmse for m in singles.values()), rel=1e-6)
     yield {'name': 'best_of_list_has_smallest_rmse', 'ok': bool(ok), 'detail': f"{best.model.name} {best.model.rmse} vs {[(k, v.model.rmse) for k, v in singles.items()]}"}
+    # user bounds are a dictionary by parameter name: an active bound holds whatever the key order it was written in
+    for mname, truth, cap in (('Langmuir', {'K': 0.5, 'n_m': 10.0}, ('n_m', 8.0)), ('Toth', {'n_m': 6.0, 'K': 4.0, 't': 0.8}, ('n_m', 5.0)),
+                              ('DSLangmuir', {'n_m1': 3.0, 'K1': 10.0, 'n_m2': 2.0, 'K2': 0.5}, ('n_m1', 2.0))):
+        pp = numpy.linspace(0.05, 8 if mname == 'Langmuir' else 0.95, 25)
+        ll = _gen(mname, truth, pp)
+        fits = {}
+        for order in ('model', 'reversed'):
+            keys = list(truth) if order == 'model' else list(truth)[::-1]
+            pb = {k: ((0.0, cap[1]) if k == cap[0] else (0.0, numpy.inf)) for k in keys}
+            try:
+                mi = pgm.model_iso(_iso(pp, ll, pressure_mode='absolute', pressure_unit='bar'), model=mname, param_bounds=pb)
+                fits[order] = dict(mi.model.params)
+                inside = all(mi.model.param_bounds[k][0] - 1e-9 <= v <= mi.model.param_bounds[k][1] + 1e-9 for k, v in mi.model.params.items())
+                yield {'name': f"user_bounds_respected|{mname}|keys_in_{order}_order", 'ok': bool(inside), 'detail': f"{mi.model.params} vs bounds {mi.model.param_bounds}"}
+            except CalculationError:
+                yield {'name': f"user_bounds_respected|{mname}|keys_in_{order}_order", 'ok': True, 'detail': 'optimiser reported failure (no claim)'}
+        if len(fits) == 2:
+            same = all(close(fits['model'][k], fits['reversed'][k], rel=1e-4, abs_=1e-8) for k in truth)
+            yield {'name': f"user_bounds_key_order_irrelevant|{mname}", 'ok': bool(same), 'detail': f"{fits}"}
     # only the requested branch is used
     p2 = numpy.concatenate([p, p[::-1][1:]])
     l2 = numpy.concatenate([l, (l * 1.3)[::-1][1:]])
@@ -127,7 +146,7 @@ def _case(spec, model):
 
 @replayer('c12.fit')
 def _fit(spec, model):
-    bad = [r for r in recovery_cases(0) if not r['ok'] and (spec['model'] in r['name'])]
+    bad = [r for r in recovery_cases(0) if not r['ok'] and (spec['model'] in r['name'] or (spec.get('order') == 'reversed' and r['name'].startswith('user_bounds')))]
     return {'confirmed': bool(bad), 'observed': [(b['name'], b['detail']) for b in bad[:3]]}
 
 
